@@ -11,23 +11,30 @@
 (***************************************************************************)
 EXTENDS CycleHist, TLC, Json, IOUtils
 H == ndJsonDeserialize(IOEnv.TRACE_FILE)
-BadOf(r) ==
+\* a history holding something that is not a domain value cannot be costed: only the domain clause is reported then
+HistOK(r) == \A v \in DOMAIN r.hist : \A i \in 1..Len(r.hist[v]) : r.hist[v][i] \in 1..r.inst.dsize[v]
+BadOf0(r) ==
   LET I == r.inst
       allowed(k) == {{r.pairs[i][2], r.pairs[i][3]} : i \in {j \in 1..Len(r.pairs) : r.pairs[j][1] = k}}
+      pairK == {r.pairs[i][1] : i \in 1..Len(r.pairs)}       \* the cycles in which a coordinated offer was accepted (MGM2)
   IN
-  (IF ~HCostMonotone(I, r.hist, r.idle) THEN {"C03_cost_got_worse"} ELSE {})
+  (IF HCostBadSteps(I, r.hist, r.idle) \ pairK # {} THEN {"C03_cost_got_worse"} ELSE {})
+  \cup (IF HCostBadSteps(I, r.hist, r.idle) \cap pairK # {} THEN {"C03_cost_got_worse@pair"} ELSE {})
   \cup (IF ~HMoveAlone(I, r.hist, r.idle, allowed) THEN {"C03_neighbours_moved_together"} ELSE {})
-  \cup (IF r.allstarted /\ ~HStagnationIsOneOpt(I, r.hist, r.idle) THEN {"C04_stagnation_not_one_opt"} ELSE {})
+  \cup (IF r.allstarted /\ HStagnationBadSteps(I, r.hist, r.idle) \ pairK # {} THEN {"C04_stagnation_not_one_opt"} ELSE {})
+  \cup (IF r.allstarted /\ HStagnationBadSteps(I, r.hist, r.idle) \cap pairK # {} THEN {"C04_stagnation_not_one_opt@pair"} ELSE {})
   \cup (IF \E c \in VarSet(I) : r.fin[c] /\ r.cyc[c] # (IF c \in HActive(I) THEN r.stop ELSE 0)
         THEN {"C07_finished_at_wrong_cycle"} ELSE {})
   \cup (IF r.quiet /\ r.stop > 0 /\ (\E c \in VarSet(I) : ~r.fin[c]) THEN {"quiet_but_not_all_finished"} ELSE {})
   \cup (IF r.exc # "" THEN {"EXC"} ELSE {})
   \cup (IF r.bestresp /\ ~HMovesBestResponse(I, r.hist) THEN {"C06_dsa_move_not_best_response"} ELSE {})
   \cup (IF \E c \in VarSet(I) : r.val[c] \notin 0..I.dsize[c] THEN {"C10_current_value_not_in_domain"} ELSE {})
+BadOf(r) == IF HistOK(r) /\ (\A v \in DOMAIN r.idle : r.idle[v] \in 1..r.inst.dsize[v]) THEN BadOf0(r) ELSE {"C10_current_value_not_in_domain"}
+WitOf(r) == IF HistOK(r) /\ (\A v \in DOMAIN r.idle : r.idle[v] \in 1..r.inst.dsize[v])
+            THEN [moves |-> HMoves(r.inst, r.hist, r.idle), stagnations |-> HStagnations(r.inst, r.hist, r.idle)]
+            ELSE [moves |-> 0, stagnations |-> 0]
 VARIABLE k
 Init == k \in 1..Len(H)
 Next == UNCHANGED k
-Emit == PrintT(<<"VERDICT", ToJson([id |-> H[k].id, bad |-> BadOf(H[k]),
-                                    wit |-> [moves |-> HMoves(H[k].inst, H[k].hist, H[k].idle),
-                                             stagnations |-> HStagnations(H[k].inst, H[k].hist, H[k].idle)]])>>)
+Emit == PrintT(<<"VERDICT", ToJson([id |-> H[k].id, bad |-> BadOf(H[k]), wit |-> WitOf(H[k])])>>)
 ====
